@@ -137,14 +137,22 @@ func (a *aofRun) rewriteConc(i int) (int, bool) {
 	a.rewriteCrashSite = ""
 	a.crashSites = nil
 	a.tainted = lossy(a.dump())
-	if len(ws) > 0 {
-		a.concWriters = true
-	}
 	if cur := a.dump(); !mapsEqual(cur, last) {
 		a.states = append(a.states, cur)
 	}
 	if a.p.SK("sync") == "always" || a.disk.PendingOps("aof/log.aof") == 0 {
 		a.syncedUp = len(a.states) - 1
 	}
-	return consumed, true
+	if len(ws) == 0 {
+		return consumed, true
+	}
+	// "restoring from disk at this instant": the process is killed right here (every byte handed to the
+	// operating system survives) and restarted; everything acknowledged has to be there. Doing it at once
+	// keeps the verdict attributable to this concurrent phase and to nothing that happens later in the plan.
+	a.concWriters = true
+	a.names = append(a.names, "probe-restart")
+	a.disk.CrashNow("kill")
+	ok := a.recover(a.nextImage(a.disk.Image), len(a.states)-1, nil, "kill right after REWRITEAOF with concurrent writers")
+	a.concWriters = false
+	return consumed, ok
 }
